@@ -187,8 +187,8 @@ MycatLongRules == {WithPart(Base("mycat_long", Sum(p[1])), p) : p \in Partitions
 
 Single(a)  == [form |-> "single", a |-> a, b |-> None]
 Pair(a, b) == [form |-> "pair", a |-> a, b |-> b]
-HashSlices == { Single(2), Pair(0, 2), Pair(-2, None), Pair(None, -1), Pair(None, None), Pair(1, None) }
-              \cup (IF Wide THEN { Single(-3), Single(0), Pair(-3, -1), Pair(1, 3), Pair(2, 1), Pair(-100, 100),
+HashSlices == { Single(2), Single(-3), Single(0), Pair(0, 2), Pair(-2, None), Pair(None, -1), Pair(None, None), Pair(1, None) }
+              \cup (IF Wide THEN { Single(-1), Single(1), Single(-100), Single(100), Pair(-3, -1), Pair(1, 3), Pair(2, 1), Pair(-100, 100),
                                    Pair(0, 5), Pair(None, 1) } ELSE {})
 StringParts == IF Wide THEN Partitions ELSE {<<<<4>>, <<256>>>>, <<<<1, 1, 4>>, <<512, 256, 64>>>>}
 WithHs(r, h) == [type |-> r.type, locations |-> r.locations, slices |-> r.slices, databases |-> r.databases,
